@@ -2076,6 +2076,8 @@ impl<'a> BackendWriteTransaction<'a> {
             ruv,
         } = self;
 
+        #[cfg(feature = "verif-hooks")]
+        crate::verif::pause("be_commit.entry");
         // write the ruv content back to the db.
         idlayer.write_db_ruv(ruv.added(), ruv.removed())?;
 
